@@ -128,6 +128,16 @@ func (r *Run) Pick(q, t int) int {
 // call Capped.
 func (r *Run) Expired() bool { return time.Now().After(r.deadline) }
 
+// Limit temporarily moves the internal deadline to now+d (never later than the run's own deadline); the
+// returned function restores it. Used to split a check's budget between its parts.
+func (r *Run) Limit(d time.Duration) (restore func()) {
+	old := r.deadline
+	if nd := time.Now().Add(d); nd.Before(old) {
+		r.deadline = nd
+	}
+	return func() { r.deadline = old }
+}
+
 // Remaining returns the time left before the internal deadline.
 func (r *Run) Remaining() time.Duration { return time.Until(r.deadline) }
 
